@@ -189,11 +189,21 @@ func main() {
 		codec segment.Codec
 		hl    int
 	}{{"none", plain, 6}, {"lz4", lz, 8}} {
-		vlib.ParFor(len(sizes), func(si int) {
-			n := sizes[si]
-			p := gen.Payload(n, "random")
+		// incompressible payloads travel as they are (also under LZ4: the fallback form); compressible ones really
+		// travel compressed under LZ4 and exercise the other half of the decoder
+		classes := []string{"random"}
+		if fm.name == "lz4" {
+			classes = []string{"random", "p7", "zeros"}
+		}
+		vlib.ParFor(len(sizes)*len(classes), func(sk int) {
+			n := sizes[sk/len(classes)]
+			class := classes[sk%len(classes)]
+			if class != "random" && n < 16 {
+				return // too short to be sent compressed: same as the incompressible case
+			}
+			p := gen.Payload(n, class)
 			wire := enc(c, fm.codec, p, true)
-			nbits := (n + 4) * 8
+			nbits := (len(wire) - fm.hl) * 8 // transmitted payload + CRC-32
 			local := int64(0)
 			w := append([]byte{}, wire...)
 			try := func(desc string, flips func(set func(bit int))) {
@@ -246,11 +256,11 @@ func main() {
 			atomic.AddInt64(&evals, local)
 			atomic.AddInt64(&direct, local)
 		})
-		vlib.ParFor(len(big), func(bi int) {
-			n := big[bi]
-			p := gen.Payload(n, "random")
+		vlib.ParFor(len(big)*len(classes), func(bk int) {
+			n := big[bk/len(classes)]
+			p := gen.Payload(n, classes[bk%len(classes)])
 			wire := enc(c, fm.codec, p, true)
-			nbits := (n + 4) * 8
+			nbits := (len(wire) - fm.hl) * 8
 			w := append([]byte{}, wire...)
 			local := int64(0)
 			try := func(desc string, bitsToFlip ...int) {
